@@ -7,7 +7,9 @@ Abstract edits (JSON-able):
   {"op": "set_attr", "section": S, "name": N, "attr": A, "value": true | "v1,v2"}     replace/add attribute A on entry N
   {"op": "dup", "section": S, "name": N, "newname": N2, "parent": P | null, "inlib": L | null, "attrs": {..} | absent}
         add a second, otherwise empty entry called N2 (a spelling of N's own name); for tags next to N
-        (parent null) or as first child of the node P; for units inside unit class P (null: N's own class)
+        (parent null) or as first child of the node P; for units inside unit class P (null: N's own class);
+        optional "place" (non-tag sections): "after" | "before" (adjacent to N) | "end" | "start" (far from N: last / first
+        entry of N's section, for units of the unit class); absent: XML appends, MediaWiki inserts before N
   {"op": "retitle", "version": V}     change the version in the header (successor copy)
 S in tags | units | unitClasses | unitModifiers | valueClasses | attributes | properties;  tags are named by full path.
 """
@@ -99,7 +101,18 @@ class XmlDoc:
                 _xml_attr(new, _prop_tag(sec), a, v)
             if ed.get("inlib"):
                 _xml_attr(new, _prop_tag(sec), "inLibrary", ed["inlib"])
-            par.append(new)
+            place = ed.get("place")
+            if place and sec != "tags":
+                kids = list(par)
+                same = [k for k, c in enumerate(kids) if c.tag == new.tag]
+                if el in kids:
+                    at = {"after": kids.index(el) + 1, "before": kids.index(el), "end": len(kids),
+                          "start": same[0] if same else len(kids)}[place]
+                else:       # a unit copied into another unit class
+                    at = same[0] if same and place in ("before", "start") else len(kids)
+                par.insert(at, new)
+            else:
+                par.append(new)
             undo.append(lambda: par.remove(new))
         else:
             raise ValueError(op)
@@ -126,6 +139,7 @@ class WikiDoc:
         self.index = {}      # (section, name) -> line number
         self.level = {}      # line number -> star level (0 = root tag)
         self.unit_class = {}
+        self.section_of = {}  # line number -> section (entry lines after the tag tree)
         sec = None
         stack = []
         cur_class = None
@@ -157,6 +171,7 @@ class WikiDoc:
                 level = len(head) - len(head.lstrip("*"))
                 name = head.lstrip("*").strip()
                 self.level[i] = level
+                self.section_of[i] = sec
                 if sec == "unitClasses" and level == 2:
                     self.index[("units", name)] = i
                     self.unit_class[name] = cur_class
@@ -164,6 +179,30 @@ class WikiDoc:
                     if sec == "unitClasses":
                         cur_class = name
                     self.index[(sec, name)] = i
+
+    def _after(self, i):
+        """line number just behind entry i and the entries below it (the units of a unit class)"""
+        j = i + 1
+        while j in self.level and self.section_of.get(j) == self.section_of.get(i) and self.level[j] > self.level[i]:
+            j += 1
+        return j
+
+    def _place(self, i, place):
+        """where a copy of the entry at line i goes: before it (default), right behind it, or as first / last entry of its
+        section (a unit: of its unit class)"""
+        if not place or place == "before":
+            return i
+        if place == "after":
+            return self._after(i)
+        sec, lvl = self.section_of[i], self.level[i]
+        j = i
+        if place == "start":
+            while (j - 1) in self.level and self.section_of.get(j - 1) == sec and self.level[j - 1] >= lvl:
+                j -= 1
+            return j
+        while j in self.level and self.section_of.get(j) == sec and self.level[j] >= lvl:
+            j += 1
+        return j
 
     def apply(self, edits):
         lines = list(self.lines)
@@ -194,13 +233,15 @@ class WikiDoc:
                     else:
                         inserts.append((i, "*" * self.level[i] + " " + newname + extra))
                 elif sec == "units":
-                    if ed.get("parent"):
+                    place = ed.get("place")
+                    if ed.get("parent") and not (place and self.unit_class.get(name) == ed["parent"]):
                         j = self.index[("unitClasses", ed["parent"])]
-                        inserts.append((j + 1, "** " + newname + extra))
+                        at = self._after(j) if place in ("after", "end") else j + 1
+                        inserts.append((at, "** " + newname + extra))
                     else:
-                        inserts.append((i, "** " + newname + extra))
+                        inserts.append((self._place(i, place), "** " + newname + extra))
                 else:
-                    inserts.append((i, "* " + newname + extra))
+                    inserts.append((self._place(i, ed.get("place")), "* " + newname + extra))
             else:
                 raise ValueError(op)
         for at, text in sorted(inserts, key=lambda t: -t[0]):
